@@ -9,6 +9,7 @@ import (
 	"context"
 	"encoding/json"
 	"fmt"
+	"io"
 	"log/slog"
 	"math/rand"
 	"path/filepath"
@@ -38,6 +39,28 @@ type Case struct {
 	TimeNs    int64       `json:"time_ns,omitempty"`
 	TimeSec   int64       `json:"time_sec,omitempty"` // with Via 3: seconds since the epoch (reaches years outside 1678..2262)
 	ZoneSec   int         `json:"zone_sec,omitempty"`
+	// PoolBytes/PoolKind: history in the handlers' shared buffer pool - right before the record, another
+	// record whose line is about PoolBytes long is written through a handler of PoolKind (0 nano, 1 text,
+	// 2 json) on the same goroutine, so that the buffer it grew is the one this record draws next
+	PoolBytes int `json:"pool_bytes,omitempty"`
+	PoolKind  int `json:"pool_kind,omitempty"`
+}
+
+func poolHistory(cs Case) {
+	if cs.PoolBytes <= 0 {
+		return
+	}
+	opts := logger.NewOptions(logger.LevelDebug, false, false)
+	var h logger.Handler
+	switch cs.PoolKind {
+	case 0:
+		h = logger.NewNanoHandler(io.Discard, opts)
+	case 1:
+		h = logger.NewTextHandler(io.Discard, opts)
+	default:
+		h = logger.NewJsonHandler(io.Discard, opts)
+	}
+	logger.New(h).Info("big", "v", strings.Repeat("x", cs.PoolBytes))
 }
 
 type capture struct {
@@ -166,6 +189,7 @@ func runOnce(cs Case, st *stats) (key, expected, observed string) {
 	var t0, t1, chosen time.Time
 	func() {
 		defer func() { pv = recover() }()
+		poolHistory(cs)
 		if cs.Via == 3 {
 			for _, op := range cs.Rec.Chain {
 				if op.IsGrp {
@@ -440,6 +464,8 @@ func (mon) Plan(prop, tier string, seed int64) []drv.Shard {
 		if p == 0 {
 			a, _ = json.Marshal(shardArgs{Kind: "times"})
 			out = append(out, drv.Shard{Name: "times", Args: a})
+			a, _ = json.Marshal(shardArgs{Kind: "pool"})
+			out = append(out, drv.Shard{Name: "pool", Args: a})
 		}
 		if p < 4 {
 			a, _ = json.Marshal(shardArgs{Kind: "sibling", Part: p, Parts: 4})
@@ -514,6 +540,27 @@ func (mn mon) Run(sh drv.Shard, c *drv.Ctx) {
 			if k != "" {
 				c.Violate(k, map[string]any{"shared_run": i + a.Part*1000}, e, o)
 				return
+			}
+		}
+	case "pool":
+		// every record below is logged right after a record of another size went through the shared
+		// buffer pool (sizes around the pool's keep/drop limit of 16 KiB and far beyond it)
+		idx := 0
+		for rep := 0; rep < 3; rep++ {
+			for _, size := range []int{100, 1000, 1024, 5000, 16000, 16300, 16384, 16385, 17000, 20000, 70000, 1 << 20} {
+				for kind := 0; kind < 3; kind++ {
+					for via := 0; via < 3; via++ {
+						idx++
+						rec := attrgen.Rec{Msg: []byte("after"), Level: idx % 5, Attrs: []attrgen.Node{{Key: []byte("k"), Val: &attrgen.Val{T: "int", I: int64(idx)}}, {Key: []byte("s"), Val: &attrgen.Val{T: "str", B: []byte("a b")}}}}
+						if via == 2 {
+							rec.Chain = []attrgen.ChainOp{{Attrs: []attrgen.Node{{Key: []byte("w"), Val: &attrgen.Val{T: "int", I: 7}}}}, {IsGrp: true, Group: []byte("g")}}
+						}
+						cs := Case{Rec: rec, Via: via, AddSource: idx%2 == 0, PoolBytes: size, PoolKind: kind}
+						if !exec(cs, fmt.Sprintf("pool %d/%d/%d/%d", size, kind, via, rep)) {
+							return
+						}
+					}
+				}
 			}
 		}
 	case "times":
